@@ -20,7 +20,9 @@ RULE = (
     'healthy key listed twice); ECDSA signatures with uniform nonces (1-60 per issuer, 1-4 issuers, mixed '
     'curves, digests of 20-64 bytes). Each batch goes through the all-checks entry point. A second arm places '
     'the same healthy artifacts in a batch with weak ones (which share no prime / have no close private key / '
-    'use other issuers by construction) and compares. Oracle: no check sets a positive entry on a healthy '
+    'use other issuers by construction) and compares; a cheap arm runs the individual EC checks (validity, weak curve, '
+    'small difference with max_diff 2^6/2^10/2^12) on a few healthy keys interleaved with off-curve, (0,0), out-of-range, '
+    'small-private-key and close-pair keys of the same curve. Oracle: no check sets a positive entry on a healthy '
     'artifact, weak stays False, the entry point returns False on all-healthy batches, and the entries of a '
     'healthy artifact in the mixed batch equal those in the healthy-only batch. Non-trivial: batch with >= 2 '
     'artifacts (joint code paths active) or a mixed batch; distinct by descriptor hash.')
@@ -261,6 +263,59 @@ def strat_sigs(tier):
 
 # ---------------------------------------------------------------- EC with the library's default max_diff (thorough only)
 
+def run_ec_neighbours(desc):
+  """Cheap EC checks one by one on a few healthy keys surrounded by weak keys of the SAME curve."""
+  from paranoid_crypto.lib import ec_single_checks  # pylint: disable=g-import-not-at-top
+  mat = Material(desc['m'], 'c07n')
+  cid = eg.STRONG_CURVES[desc['curve'] % len(eg.STRONG_CURVES)]
+  ref = eg.ref(cid)
+  n = ref.n
+  batch = []   # (key, healthy?)
+  for kind in desc['layout']:
+    wc = cid if desc['same_curve'] else eg.PRIME_CURVES[(desc['curve'] + 1 + mat.below(8)) % len(eg.PRIME_CURVES)]
+    wn, wp = eg.ref(wc).n, eg.ref(wc).p
+    if kind == 'h':
+      batch.append((art.ec_key(cid, *eg.mul_g(cid, 1 + mat.below(n - 1)), pad=desc['pad']), True))
+    elif kind == 'small':
+      batch.append((art.ec_key(wc, *eg.mul_g(wc, 1 + mat.below(1000))), False))
+    elif kind == 'pair':
+      d = 1 + mat.below(wn - 1000)
+      batch.append((art.ec_key(wc, *eg.mul_g(wc, d)), False))
+      batch.append((art.ec_key(wc, *eg.mul_g(wc, d + 1 + mat.below(500))), False))
+    elif kind == 'off':
+      x, y = eg.mul_g(wc, 1 + mat.below(wn - 1))
+      batch.append((art.ec_key(wc, x, (y + 1) % wp), False))
+    elif kind == 'zero':
+      batch.append((art.ec_key(wc, 0, 0), False))
+    elif kind == 'big':
+      batch.append((art.ec_key(wc, wp + mat.below(1000), wp + mat.below(1000)), False))
+  if not any(h for _, h in batch):
+    batch.append((art.ec_key(cid, *eg.mul_g(cid, 1 + mat.below(n - 1))), True))
+  checks = {'valid': ec_single_checks.CheckValidECKey, 'curve': ec_single_checks.CheckWeakCurve,
+            'diff': lambda: ec_aggregate_checks.CheckECKeySmallDifference(max_diff=2**[6, 10, 12][desc['m'] % 3])}
+  try:
+    for c in desc['checks']:
+      libcall(checks[c]().Check, [k for k, _ in batch])
+  finally:
+    _drop_tables()
+  healthy = [k for k, h in batch if h]
+  _assert_clean(healthy, 'ec-neighbours', layout=desc['layout'], ran=desc['checks'])
+  weak_seen = sum(1 for k, h in batch if not h and k.test_info.weak)
+  return {'nt': weak_seen > 0, 'cls': ['ecn check=' + c for c in desc['checks']] +
+          ['ecn kind=' + k for k in sorted(set(desc['layout'])) if k != 'h'] +
+          (['ecn same-curve'] if desc['same_curve'] else ['ecn other-curve']) +
+          (['ecn weak-neighbour-flagged'] if weak_seen else [])}
+
+
+def strat_ec_neighbours(tier):
+  return st.fixed_dictionaries({
+      'm': material, 'curve': st.integers(0, 7), 'pad': st.sampled_from([0, 0, 1]),
+      'layout': st.lists(st.sampled_from(['h', 'h', 'h', 'small', 'pair', 'off', 'zero', 'big']), min_size=2,
+                         max_size=8),
+      'same_curve': st.sampled_from([True, True, True, False]),
+      'checks': st.lists(st.sampled_from(['valid', 'curve', 'diff', 'diff']), min_size=1, max_size=3, unique=True)})
+
+
 def run_ec_default(desc):
   """The untouched default configuration CheckECKeySmallDifference() (2^24 table: ~85 s, ~3.3 GB)."""
   mat = Material(desc['m'], 'c07d')
@@ -286,8 +341,10 @@ def enum_ec_default(tier):
 
 
 ARMS = [
-    Arm('rsa', run_rsa, strategy=strat_rsa, quick=320, thorough=2500, budget=(170, 2400), weight=3),
-    Arm('ec', run_ec, strategy=strat_ec, quick=32, thorough=600, budget=(170, 2400), weight=2, shards=8),
-    Arm('ec_default_maxdiff', run_ec_default, enumerate=enum_ec_default, budget=(10, 2400), weight=9),
-    Arm('signatures', run_sigs, strategy=strat_sigs, quick=48, thorough=1500, budget=(170, 2400), weight=2),
+    Arm('rsa', run_rsa, strategy=strat_rsa, quick=320, thorough=2500, budget=(170, 1500), weight=3),
+    Arm('ec', run_ec, strategy=strat_ec, quick=32, thorough=600, budget=(170, 1500), weight=2, shards=8),
+    Arm('ec_neighbours', run_ec_neighbours, strategy=strat_ec_neighbours, quick=960, thorough=16000,
+        budget=(170, 1200)),
+    Arm('ec_default_maxdiff', run_ec_default, enumerate=enum_ec_default, budget=(10, 900), weight=9),
+    Arm('signatures', run_sigs, strategy=strat_sigs, quick=48, thorough=1500, budget=(170, 1500), weight=2),
 ]
